@@ -81,6 +81,7 @@ def run(ctx):
                 'parsed records = rendered contigs; file signature = union of the original contigs; boundary witness (ASSUME)')
     ctx.mc('MC_KmerSearch', 'MC_KmerSearch_N.cfg', workers=16, overrides=dict(MaxLen=4),
            note='lemmas used here: SigDef invariant under reverse complement and case (shared with C01)')
+    ctx.mc('CalcHistory', 'MC_CalcHistory.cfg', workers=8, note='a read that fails part-way must not leak into the next file (shared with C13)')
     tmp = tlc.mktmp('c06-')
     try:
         cfg = os.path.join(tmp, 'Gen_Fasta_run.cfg')
